@@ -2,7 +2,7 @@ import sys, json
 pid = sys.argv[1]
 hint = sys.argv[2] if len(sys.argv) > 2 else ''
 txt = open(f'/tmp/prop-{pid}.txt').read()
-print(f"""You are helping test a verification framework by producing a realistic, SUBTLE defect for a Python project. Work ONLY inside the git worktree /tmp/wt-{pid} (a checkout of the project outbrain/outrank, a feature-ranking CLI/library). Do not read or touch /verif or /repo. Do not commit anything. Do NOT use `git stash` (the stash is shared between worktrees and other people are working in sibling worktrees); to compare before/after use `git -C /tmp/wt-{pid} diff > seed_out/patch.diff` then `git apply -R seed_out/patch.diff` / `git apply seed_out/patch.diff`.
+print(f"""You are helping test a verification framework by producing a realistic, SUBTLE defect for a Python project. Work ONLY inside the git worktree /tmp/wt2-{pid} (a checkout of the project outbrain/outrank, a feature-ranking CLI/library). Do not read or touch /verif or /repo. Do not commit anything. Do NOT use `git stash` (the stash is shared between worktrees and other people are working in sibling worktrees); to compare before/after use `git -C /tmp/wt2-{pid} diff > seed_out/patch.diff` then `git apply -R seed_out/patch.diff` / `git apply seed_out/patch.diff`.
 
 The property that your change must BREAK:
 
@@ -10,15 +10,15 @@ The property that your change must BREAK:
 {txt}
 ---
 
-Task: make a small source change (a few lines) to the project code under /tmp/wt-{pid}/outrank that breaks this property while (1) the package still imports/compiles, and (2) the existing test suite still passes exactly as before. The change should need something SPECIFIC to manifest (a particular interleaving, a multi-step sequence of operations, an unusual input or boundary value, a particular configuration/flag combination, or two cooperating sites that each look fine alone) rather than something ordinary use would expose at once. It should look like a plausible mistake or "optimisation" a developer could make. {hint}
+Task: make a small source change (a few lines) to the project code under /tmp/wt2-{pid}/outrank that breaks this property while (1) the package still imports/compiles, and (2) the existing test suite still passes exactly as before. The change should need something SPECIFIC to manifest (a particular interleaving, a multi-step sequence of operations, an unusual input or boundary value, a particular configuration/flag combination, or two cooperating sites that each look fine alone) rather than something ordinary use would expose at once. It should look like a plausible mistake or "optimisation" a developer could make. {hint}
 
 How to run things (use exactly this environment so the worktree's code is what runs):
-  cd /tmp/wt-{pid} && NUMBA_CACHE_DIR=/tmp/wt-{pid}/.numba_cache PYTHONPATH=/tmp/wt-{pid} /venv/bin/python -c "import outrank; print(outrank.__file__)"   # must print a path under /tmp/wt-{pid}
-  cd /tmp/wt-{pid} && NUMBA_CACHE_DIR=/tmp/wt-{pid}/.numba_cache PYTHONPATH=/tmp/wt-{pid} /venv/bin/python -m pytest -q -p no:cacheprovider --timeout=900 tests/
-On the unmodified tree 57 tests pass and exactly 1 fails (tests/ranking_module_test.py::CompareStrategiesTest::test_compute_combinations fails before and after - ignore it). After your change the same 57 must pass. Always set NUMBA_CACHE_DIR as shown. There is no network.
+  cd /tmp/wt2-{pid} && NUMBA_CACHE_DIR=/tmp/wt2-{pid}/.numba_cache PYTHONPATH=/tmp/wt2-{pid} /venv/bin/python -c "import outrank; print(outrank.__file__)"   # must print a path under /tmp/wt2-{pid}
+  cd /tmp/wt2-{pid} && NUMBA_CACHE_DIR=/tmp/wt2-{pid}/.numba_cache PYTHONPATH=/tmp/wt2-{pid} /venv/bin/python -m pytest -q -p no:cacheprovider --timeout=900 tests/
+On the unmodified tree all 58 tests pass. After your change the same 58 must pass. Always set NUMBA_CACHE_DIR as shown. There is no network.
 
-Deliverables (write them into /tmp/wt-{pid}/seed_out/):
-  1. patch.diff  - output of `git -C /tmp/wt-{pid} diff` for your source change only (do not include seed_out or cache files).
-  2. demo.py     - a small standalone program that exits 0 on the unmodified code and exits non-zero (with a message) on the modified code, run as: cd /tmp/wt-{pid} && NUMBA_CACHE_DIR=/tmp/wt-{pid}/.numba_cache PYTHONPATH=/tmp/wt-{pid} /venv/bin/python seed_out/demo.py . It should demonstrate the property violation against an independent computation of what the property says.
+Deliverables (write them into /tmp/wt2-{pid}/seed_out/):
+  1. patch.diff  - output of `git -C /tmp/wt2-{pid} diff` for your source change only (do not include seed_out or cache files).
+  2. demo.py     - a small standalone program that exits 0 on the unmodified code and exits non-zero (with a message) on the modified code, run as: cd /tmp/wt2-{pid} && NUMBA_CACHE_DIR=/tmp/wt2-{pid}/.numba_cache PYTHONPATH=/tmp/wt2-{pid} /venv/bin/python seed_out/demo.py . It should demonstrate the property violation against an independent computation of what the property says.
   3. notes.md    - what the change is, what specific input/condition is needed for it to manifest, and the commands you ran with their results (test suite before/after, demo before/after).
 Leave the worktree WITH your change applied. Report back a short summary: the diff, the trigger condition, and confirmation of the test-suite and demo results.""")
